@@ -9,6 +9,8 @@ description says WHAT each service contains, the harness' own walk over
 `Server.attributes` (types and declaration bytes only, no server helper is called) says
 WHERE it is; a perfect client must reconstruct exactly that.  The server node's HCI tap is
 sniffed (ACL -> L2CAP -> ATT / K-frame SDU reassembly done here) for the on-the-wire clause.
+Histories also contain: several subscribers of one client per characteristic, overlapping reads / reads during
+server sends, enhanced bearers that are closed and opened while the connection stays, reconnections with a new MTU.
 
 Harness B: a Bumble GATT client against a vlib.world.RawPeer that plays an adversarial ATT
 server on CID 4 from a generated response script; every discovery procedure has to
@@ -42,9 +44,17 @@ RULE = (
     '1..3 client devices with 0..2 EATT bearers each (L2CAP MTU 64..517 or default on both sides); '
     'operation lists of read/write/subscribe (one bearer or all bearers)/unsubscribe/notify_subscribers/indicate_subscribers/'
     'notify_subscriber/indicate_subscriber (connection or one bearer, forced or not; also "the API matching the latest subscription"). Every client '
-    'runs the full discovery; everything readable is read on client 0, every generated characteristic value on every EATT bearer. non-trivial = some discovery '
+    'runs the full discovery; everything readable is read on client 0, every generated characteristic value on every EATT bearer. '
+    'Client 0 also runs the filtered / ranged forms (discover_services(uuids), discover_characteristics(uuids, service) with the UUID of the '
+    'second-to-last characteristic of the largest service, discover_characteristics([], None), discover_descriptors(start, end)); on every bearer '
+    'the tree the client keeps (Client.services, .characteristics, .included_services, .descriptors, get_*_by_uuid) is compared with what was returned. '
+    'Appended blocks (each in about a third of the cases): several subscribers of one client on one characteristic (callback slots 0..2, '
+    'callback-less subscribe with the proxy\'s "update" event, unsubscribe of one of several / of all / of a callback that never subscribed, sends after each step); '
+    'overlapping operations (2..4 reads started together on the same or different bearers, a read in flight - 0..6 loop turns ahead - while the '
+    'server notifies/indicates); one enhanced bearer closed by the client or the server while the connection stays, sends, a new enhanced bearer '
+    'opened later (channel identifiers reused), sends; reconnect with a fresh MTU exchange on the new connection. non-trivial = some discovery '
     'step needed >=2 response PDUs, or UUID widths are mixed inside one discovery range, or a long '
-    'read happened, or a server send had >=2 subscribed bearers. '
+    'read happened, or a server send had >=2 subscribed bearers, or long reads overlapped (with each other on two bearers / with a send to the reading bearer). '
     'B (script): one discovery procedure (all six, generated handle ranges for the range-based ones) '
     'against a scripted adversarial server: list responses with absolute / request-relative handles '
     '(equal to start, start-1, 0, 0xFFFF, end < start, non-monotonic), empty lists, wrong-type '
@@ -65,6 +75,14 @@ ASSUMPTIONS = [
     'time after two identical answers" is non-termination against a deterministic adversary',
     'descriptor types 0x2800-0x2803 and 0x2902 are not generated as user descriptors; generated '
     '128-bit UUIDs are never on the Bluetooth base (no equal-valued UUIDs of different widths)',
+    'several subscribers of one client: a callback that subscribed for the kind of PDU that arrives and has not unsubscribed is called exactly '
+    'once, one that unsubscribed or never subscribed is not called; the bearer stays subscribed (CCCD unchanged, the server keeps sending) while '
+    'a callback subscribed for the enabled kind is left and reads 0000 when the last subscriber left or unsubscribe() was called without a callback. '
+    'Left open (both accepted): what happens to the CCCD when only a callback-less subscription or only subscribers of the other kind remain, '
+    'and whether a callback registered for notifications sees an indication (or vice versa)',
+    'the proxy\'s "update" event has to fire once per delivered PDU while a callback of that kind (or an untouched callback-less subscription) is registered',
+    'closing an enhanced bearer removes that bearer\'s subscriptions only; a bearer opened later starts unsubscribed whatever identifiers it gets',
+    'GATT 4.6.2: discover_characteristics(uuids, service) returns the matching characteristics with the same value handle / end handle as the unfiltered procedure',
 ]
 SHRINK_KEYS = ('ops', 'script', 'services', 'chars', 'descs', 'includes', 'eatt')
 
@@ -219,16 +237,20 @@ PROP_POINTS = [0x02, 0x0A, 0x10, 0x20, 0x30, 0x12, 0x22, 0x32, 0x3A, 0x04, 0x0E,
 
 
 @st.composite
-def db_case(draw):
+def db_case(draw, focus=None):
+    """focus=None: the general family (every appended block with its own probability). focus='subscribers' / 'overlap' /
+    'churn': a small database (1..2 services, 1..3 characteristics, the first one subscribable), 1..2 clients, a short
+    general operation list, and ALWAYS the block of that name - so that these histories do not depend on the luck of
+    the general family."""
     server_mtu = draw(mtu_st())
     eatt_server_mtu = draw(eatt_mtu_st())
-    nclients = draw(st.sampled_from([1, 2, 3, 1, 2]))
+    nclients = draw(st.sampled_from([1, 2, 3, 1, 2] if focus is None else [1, 2, 2]))
     clients = []
-    for _ in range(nclients):
+    for k in range(nclients):
         clients.append(
             {
                 'mtu': draw(st.one_of(st.none(), mtu_st(), mtu_st(), mtu_st())),
-                'eatt': draw(st.lists(eatt_mtu_st(), min_size=1, max_size=2)) if draw(st.booleans()) else [],
+                'eatt': draw(st.lists(eatt_mtu_st(), min_size=1, max_size=2)) if draw(st.booleans()) or (focus == 'churn' and k == 0) else [],
             }
         )
     bearer_mtus = []
@@ -238,18 +260,19 @@ def db_case(draw):
             bearer_mtus.append(min(e, eatt_server_mtu))
     lengths = length_st(sorted(set(m for m in bearer_mtus if m <= 517)) or [23])
 
-    nsvc = draw(st.integers(1, 6))
+    nsvc = draw(st.integers(1, 6 if focus is None else 2))
     rank = draw(st.permutations(list(range(nsvc))))
     services = []
     for i in range(nsvc):
-        nchars = draw(st.sampled_from([0, 1, 1, 2, 2, 3, 4, 5]))
+        nchars = draw(st.sampled_from([0, 1, 1, 2, 2, 3, 4, 5] if focus is None else [1, 2, 3]))
         chars = []
-        for _ in range(nchars):
+        for ci in range(nchars):
             ndesc = draw(st.sampled_from([0, 0, 0, 1, 1, 2, 3]))
             chars.append(
                 {
                     'uuid': draw(uuid_st('char')),
-                    'props': draw(st.one_of(st.sampled_from(PROP_POINTS), st.sampled_from(PROP_POINTS), st.integers(0, 255))),
+                    'props': draw(st.one_of(st.sampled_from(PROP_POINTS), st.sampled_from(PROP_POINTS), st.integers(0, 255)))
+                    if focus is None or (i, ci) != (0, 0) else draw(st.sampled_from([0x10, 0x20, 0x30, 0x30, 0x12, 0x22, 0x32, 0x3A])),
                     'value': [draw(lengths), draw(st.integers(0, 255))],
                     'descs': [
                         {'uuid': draw(uuid_st('desc')), 'value': [draw(st.one_of(st.integers(0, 8), lengths)), draw(st.integers(0, 255))]}
@@ -288,7 +311,64 @@ def db_case(draw):
         st.tuples(st.just('read'), idx, idx, st.booleans()),
     )
     sub_all = st.tuples(st.just('sub_all'), cidx, st.booleans())
-    ops = [list(o) for o in draw(st.lists(st.one_of(sub, sub, sub_all), min_size=0, max_size=5))] + [list(o) for o in draw(st.lists(op, min_size=0, max_size=10))]
+    ops = ([list(o) for o in draw(st.lists(st.one_of(sub, sub, sub_all), min_size=0, max_size=5 if focus is None else 2))]
+           + [list(o) for o in draw(st.lists(op, min_size=0, max_size=10 if focus is None else 3))])
+    all_sends = st.one_of(
+        st.tuples(st.just('notify_all'), st.just(0), vlen, st.integers(0, 255)),
+        st.tuples(st.just('indicate_all'), st.just(0), vlen, st.integers(0, 255)),
+        st.tuples(st.just('matching_all'), st.just(0), vlen, st.integers(0, 255)),
+        st.tuples(st.just('matching_all'), st.just(0), vlen, st.integers(0, 255)),
+    )
+    if focus == 'subscribers' or (focus is None and draw(st.integers(0, 3)) == 0):
+        # several subscribers of ONE client on one characteristic (the client's subscriber sets per handle): callbacks
+        # in slots 0..2, 'p' = subscribe() without a callback (the proxy's 'update' event), unsubscribing one of several,
+        # all of them (unsubscribe() without a callback) or a callback that never subscribed ('z'), sends in between
+        b0, c0, pn0 = draw(idx), draw(cidx), draw(st.booleans())
+        bst = st.one_of(st.just(b0), st.just(b0), st.just(b0), idx)
+        pnst = st.one_of(st.just(pn0), st.just(pn0), st.just(pn0), st.just(pn0), st.booleans())
+        subx = st.tuples(st.just('subx'), bst, st.just(c0), st.sampled_from([0, 1, 1, 2, 2, 'p']), pnst)
+        unsubx = st.tuples(st.just('unsubx'), bst, st.just(c0), st.sampled_from([0, 1, 1, 2, 2, 'p', 'z']))
+        first = draw(st.sampled_from([[0, 1], [1, 2], [0, 1, 2], [1, 'p'], ['p', 2], [1], ['p', 0, 1], [2, 'p', 1]]))
+        ops += [['subx', b0, c0, s, pn0] for s in first]
+        ops.append(list(draw(all_sends)))
+        for _ in range(draw(st.integers(1, 4))):
+            step = draw(st.integers(0, 9))
+            if step <= 4:  # a subscriber that is (probably) there leaves, or everybody, or a stranger
+                ops.append(['unsubx', b0, c0, draw(st.sampled_from(first + first + ['p', 'p', 'p', 'z', 0, 1, 2]))])
+            elif step <= 6:
+                ops.append(list(draw(subx)))
+            else:
+                ops.append(list(draw(unsubx)))
+            ops.append(list(draw(all_sends)))
+    if focus == 'overlap' or (focus is None and draw(st.integers(0, 3)) == 0):
+        # operations that overlap instead of following each other: 2..4 reads started together (same or different
+        # bearers), and reads that are in flight on a bearer while the server notifies / indicates
+        # [bearer, characteristic, prefer a value that needs a long read on that bearer]
+        pair = st.tuples(idx, idx, st.sampled_from([True, True, False])).map(list)
+        spread = st.tuples(idx, idx, idx).map(lambda t: [[0, t[0], True], [1, t[1], True], [2, t[2], True]])
+        together = st.tuples(st.just('reads_together'), st.one_of(st.lists(pair, min_size=2, max_size=4), spread)).map(list)
+        b1, c1 = draw(idx), draw(cidx)
+        block = [['sub', b1, c1, draw(st.booleans())]]
+        for _ in range(draw(st.integers(2, 4))):
+            if draw(st.integers(0, 2)) == 0:
+                block.append(draw(together))
+            else:
+                # [bearer, characteristic, loop turns the read is ahead of the send, prefer a value that needs a long read]
+                block.append(['with_read', draw(st.one_of(st.just(b1), st.just(b1), st.just(b1), idx)), draw(idx), draw(st.integers(0, 6)),
+                              draw(st.sampled_from([True, True, True, False]))])
+                block.append(list(draw(all_sends)))
+        ops += block
+    if focus == 'churn' or (focus is None and (any(c['eatt'] for c in clients) and draw(st.integers(0, 2)) == 0 or draw(st.integers(0, 11)) == 0)):
+        # one enhanced bearer goes away (closed by the client or by the server) while the connection and its other
+        # bearers stay; later a new enhanced bearer is opened (it usually gets the channel identifiers of the closed one)
+        c2, pn2 = draw(cidx), draw(st.booleans())
+        block = [['sub_all', c2, pn2]] if draw(st.booleans()) else [['sub', draw(idx), c2, pn2]]
+        block += [['close_eatt', draw(idx), draw(st.booleans())]]
+        block += [list(o) for o in draw(st.lists(st.one_of(all_sends, all_sends, st.tuples(st.just('close_eatt'), idx, st.booleans())), min_size=1, max_size=3))]
+        if draw(st.integers(0, 2)) > 0:
+            block += [['open_eatt', draw(idx), draw(eatt_mtu_st())]]
+            block += [list(o) for o in draw(st.lists(st.one_of(all_sends, all_sends, sub), min_size=1, max_size=3))]
+        ops += block
     if draw(st.integers(0, 3)) == 0:
         # a subscribed client drops its connection and comes back (usually on the same connection handle), then the
         # server sends again: the new connection has subscribed to nothing
@@ -298,7 +378,8 @@ def db_case(draw):
             st.tuples(st.just('matching_all'), cidx, vlen, st.integers(0, 255)),
             sub,
         )
-        ops += [['reconnect', draw(idx)]] + [list(o) for o in draw(st.lists(sends, min_size=1, max_size=4))]
+        # (third element: the MTU the client asks for on the NEW connection; None = no exchange, it stays at 23)
+        ops += [['reconnect', draw(idx), draw(st.one_of(st.none(), st.none(), mtu_st()))]] + [list(o) for o in draw(st.lists(sends, min_size=1, max_size=4))]
     return {
         'kind': 'db',
         'defaults': draw(st.sampled_from([False, False, True])),
@@ -499,7 +580,7 @@ def _plain(case):
 async def _drive_db(loop, case, S, fail):
     labels = S['labels']
     nclients = len(case['clients'])
-    any_eatt = any(c['eatt'] for c in case['clients'])
+    any_eatt = any(c['eatt'] for c in case['clients']) or any(op and op[0] == 'open_eatt' for op in case['ops'])
     config = DeviceConfiguration()
     config.gap_service_enabled = bool(case['defaults'])
     config.gatt_service_enabled = bool(case['defaults'])
@@ -555,14 +636,7 @@ async def _drive_db(loop, case, S, fail):
                         'h2c': (conn_p.handle, att.ATT_CID), 'c2h': (conn_p.handle, att.ATT_CID)})
         for j, emtu in enumerate(cd['eatt']):
             S['phase'] = 'connect_eatt'
-            eclient = await gatt_client.Client.connect_eatt(conn_c, l2cap.LeCreditBasedChannelSpec(psm=att.EATT_PSM, mtu=int(emtu)))
-            ch = eclient.bearer
-            sch = [x for x in srv.l2cap_channel_manager.le_coc_channels.get(conn_p.handle, {}).values()
-                   if x.source_cid == ch.destination_cid]
-            if len(sch) != 1:
-                raise HarnessError('C12: cannot identify the server side of an EATT bearer')
-            bearers.append({'k': k, 'j': j + 1, 'client': eclient, 'srv': sch[0], 'mtu': min(int(emtu), int(case['eatt_server_mtu'])),
-                            'enh': True, 'conn_p': conn_p, 'h2c': (conn_p.handle, ch.source_cid), 'c2h': (conn_p.handle, ch.destination_cid)})
+            bearers.append(await _open_eatt(srv, case, conn_c, conn_p, k, j + 1, emtu))
             labels.add('eatt_bearer')
             S['phase'] = 'setup'
     labels.add(f'clients:{nclients}')
@@ -570,6 +644,8 @@ async def _drive_db(loop, case, S, fail):
         labels.add('several_bearers')
     S['bearers'] = bearers
     S['world'] = w
+    S['srv_device'] = srv
+    S['eatt_registered'] = any_eatt
 
     # ---- structure
     for bi, b in enumerate(bearers):
@@ -611,6 +687,18 @@ async def _drive_db(loop, case, S, fail):
 
     # ---- operations
     await _run_ops(loop, case, S, fail, sniffer, server, L, my_chars, sub_chars, bearers)
+
+
+async def _open_eatt(srv, case, conn_c, conn_p, k, j, emtu) -> dict:
+    """One more enhanced bearer on an existing connection; returns its bearer record."""
+    eclient = await gatt_client.Client.connect_eatt(conn_c, l2cap.LeCreditBasedChannelSpec(psm=att.EATT_PSM, mtu=int(emtu)))
+    ch = eclient.bearer
+    sch = [x for x in srv.l2cap_channel_manager.le_coc_channels.get(conn_p.handle, {}).values()
+           if x.source_cid == ch.destination_cid]
+    if len(sch) != 1:
+        raise HarnessError('C12: cannot identify the server side of an EATT bearer')
+    return {'k': k, 'j': j, 'client': eclient, 'srv': sch[0], 'mtu': min(int(emtu), int(case['eatt_server_mtu'])),
+            'enh': True, 'conn_p': conn_p, 'conn_c': conn_c, 'h2c': (conn_p.handle, ch.source_cid), 'c2h': (conn_p.handle, ch.destination_cid)}
 
 
 def _length_labels(labels, n, mtu):
@@ -703,6 +791,7 @@ async def _discover_and_compare(case, S, fail, sniffer, L, b, full, classify) ->
     b['chars'] = {}
     queue = list(svcs)
     seen: set = set()
+    visited: list = []  # (service proxy, layout service, included proxies, characteristic proxies, {value handle: descriptor proxies})
     while queue:
         p = queue.pop(0)
         if p.handle in seen:
@@ -749,6 +838,7 @@ async def _discover_and_compare(case, S, fail, sniffer, L, b, full, classify) ->
             if len({len(c['uuid']) for c in ls['chars']}) >= 2:
                 labels.add('mixed_uuid_widths:characteristics')
                 S['nontrivial'] = True
+        visited.append((p, ls, inc, chars, {}))
         for cp, lc in zip(chars, ls['chars']):
             b['chars'][lc['vh']] = cp
             if not full:
@@ -762,6 +852,7 @@ async def _discover_and_compare(case, S, fail, sniffer, L, b, full, classify) ->
             if got_d != want_d:
                 fail('discover_descriptors/mismatch', f'{where}: characteristic 0x{cp.handle:04X}-0x{cp.end_group_handle:04X}: {_first_diff(got_d, want_d)}')
                 return False
+            visited[-1][4][lc['vh']] = descs
             if classify:
                 if responses_since(mark, 0x05) >= 2:
                     labels.add('multi_pdu:descriptors')
@@ -769,8 +860,33 @@ async def _discover_and_compare(case, S, fail, sniffer, L, b, full, classify) ->
                 if len({2 if len(bytes(a.type)) == 2 else 16 for _h, _t, a in lc['descs']}) >= 2:
                     labels.add('mixed_uuid_widths:descriptors')
                     S['nontrivial'] = True
+    # the tree the client keeps (Client.services, ServiceProxy.characteristics / included_services,
+    # CharacteristicProxy.descriptors) is the tree its procedures returned: primary services once each, in order
+    primaries = [(s['handle'], s['end'], u128(s['uuid'])) for s in L['services'] if s['primary']]
+
+    def kept_services():
+        return [(x.handle, x.end_group_handle, _pu(x.uuid)) for x in client.services]
+
+    if kept_services() != primaries:
+        fail('client_tree/services', f'{where}: Client.services after discovery: {_first_diff(kept_services(), primaries)}')
+        return False
+    for p, ls, inc, chars, descs_of in visited:
+        if [c.handle for c in p.characteristics] != [c.handle for c in chars] or any(x is not y for x, y in zip(p.characteristics, chars)):
+            fail('client_tree/characteristics', f'{where}: ServiceProxy 0x{p.handle:04X}.characteristics is not the list discover_characteristics returned')
+            return False
+        if [x.handle for x in getattr(p, 'included_services', [])] != [x.handle for x in inc]:
+            fail('client_tree/included_services', f'{where}: ServiceProxy 0x{p.handle:04X}.included_services is not the list discover_included_services returned')
+            return False
+        for cp in chars:
+            if cp.handle in descs_of and [d.handle for d in cp.descriptors] != [d.handle for d in descs_of[cp.handle]]:
+                fail('client_tree/descriptors', f'{where}: CharacteristicProxy 0x{cp.handle:04X}.descriptors is not the list discover_descriptors returned')
+                return False
     if not full:
         return True
+
+    if classify:
+        if not await _filtered_discovery(S, fail, L, b, where, visited, primaries, kept_services):
+            return False
 
     # discover_service(uuid): every distinct primary UUID of the description, one absent UUID
     asked = []
@@ -806,7 +922,90 @@ async def _discover_and_compare(case, S, fail, sniffer, L, b, full, classify) ->
     return True
 
 
-async def _read_and_compare(S, fail, b, handle, expected, what) -> bool:
+async def _filtered_discovery(S, fail, L, b, where, visited, primaries, kept_services) -> bool:
+    """The forms of the discovery procedures that take a filter or a range: discover_services(uuids),
+    discover_characteristics(uuids, service) (GATT 4.6.2: same handle ranges as the unfiltered procedure),
+    discover_characteristics([], None) (every service the client knows), discover_descriptors(start, end)."""
+    labels = S['labels']
+    client = b['client']
+    prim = [s for s in L['services'] if s['primary']]
+    if prim:
+        target = u128(prim[-1]['uuid'])
+        ok, found = await _call(S, fail, 'discover_services', client.discover_services([UUID('A0FE'), UUID.from_bytes(prim[-1]['uuid'])]), f'{where} filter')
+        if not ok:
+            return False
+        want = [x for x in primaries if x[2] == target]
+        got = [(p.handle, p.end_group_handle, _pu(p.uuid)) for p in found]
+        if got != want:
+            fail('discover_services/filtered/mismatch', f'{where}: uuids=[A0FE, {hx(prim[-1]["uuid"])}]: {_first_diff(got, want)}')
+            return False
+        labels.add('filtered:services')
+        if len(want) < len(primaries):
+            labels.add('filtered:services:some_excluded')
+        if kept_services() != primaries:
+            fail('client_tree/services', f'{where}: Client.services after a second discover_services: {_first_diff(kept_services(), primaries)}')
+            return False
+        got = [(p.handle, p.end_group_handle, _pu(p.uuid)) for p in client.get_services_by_uuid(UUID.from_bytes(prim[-1]['uuid']))]
+        if got != want:
+            fail('client_tree/get_services_by_uuid', f'{where}: {_first_diff(got, want)}')
+            return False
+    # characteristics by UUID inside one service: the service with the most characteristics, the UUID of its
+    # second-to-last characteristic (so that characteristics that do not match follow one that does)
+    cand = sorted((v for v in visited if v[1]['chars']), key=lambda v: -len(v[1]['chars']))
+    if cand:
+        p, ls = cand[0][0], cand[0][1]
+        pick = ls['chars'][max(0, len(ls['chars']) - 2)]
+        target = u128(pick['uuid'])
+        ok, found = await _call(S, fail, 'discover_characteristics', client.discover_characteristics([UUID.from_bytes(pick['uuid'])], p), f'{where} filter')
+        if not ok:
+            return False
+        want = [(c['vh'], c['end'], u128(c['uuid']), c['props']) for c in ls['chars'] if u128(c['uuid']) == target]
+        got = [(c.handle, c.end_group_handle, _pu(c.uuid), int(c.properties)) for c in found]
+        if got != want:
+            fail('discover_characteristics/filtered/mismatch', f'{where}: service 0x{p.handle:04X}-0x{p.end_group_handle:04X}, uuid {hx(pick["uuid"])}: {_first_diff(got, want)}')
+            return False
+        labels.add('filtered:characteristics')
+        flags = [u128(c['uuid']) == target for c in ls['chars']]
+        if any(flags[i] and not flags[i + 1] for i in range(len(flags) - 1)):
+            labels.add('filtered:characteristics:followed_by_other')
+    # all characteristics of every service the client knows
+    if prim:
+        ok, found = await _call(S, fail, 'discover_characteristics', client.discover_characteristics([], None), f'{where} all services')
+        if not ok:
+            return False
+        want = [(c['vh'], c['end'], u128(c['uuid']), c['props']) for s in prim for c in s['chars']]
+        got = [(c.handle, c.end_group_handle, _pu(c.uuid), int(c.properties)) for c in found]
+        if got != want:
+            fail('discover_characteristics/all_services/mismatch', f'{where}: {_first_diff(got, want)}')
+            return False
+        labels.add('characteristics_of_all_services')
+        if cand and cand[0][1]['primary']:
+            pick = cand[0][1]['chars'][0]
+            want = [c['vh'] for s in prim for c in s['chars'] if u128(c['uuid']) == u128(pick['uuid'])]
+            got = [c.handle for c in client.get_characteristics_by_uuid(UUID.from_bytes(pick['uuid']))]
+            if got != want:
+                fail('client_tree/get_characteristics_by_uuid', f'{where}: uuid {hx(pick["uuid"])}: handles {got}, expected {want}')
+                return False
+    # descriptors by handle range
+    for _p, ls, _inc, _chars, _d in visited:
+        with_descs = [c for c in ls['chars'] if c['descs']]
+        if not with_descs:
+            continue
+        lc = with_descs[-1]
+        ok, found = await _call(S, fail, 'discover_descriptors', client.discover_descriptors(None, lc['vh'] + 1, lc['end']), f'{where} range')
+        if not ok:
+            return False
+        want = [(h, t) for h, t, _a in lc['descs']]
+        got = [(d.handle, _pu(d.type)) for d in found]
+        if got != want:
+            fail('discover_descriptors/range/mismatch', f'{where}: 0x{lc["vh"] + 1:04X}-0x{lc["end"]:04X}: {_first_diff(got, want)}')
+            return False
+        labels.add('descriptors_by_range')
+        break
+    return True
+
+
+async def _read_and_compare(S, fail, b, handle, expected, what, sig=None) -> bool:
     kind = 'eatt' if b['enh'] else 'att'
     S['phase'] = f'read_value:0x{handle:04X}'
     try:
@@ -818,7 +1017,7 @@ async def _read_and_compare(S, fail, b, handle, expected, what) -> bool:
                                                       f'raised {type(e).__name__}: {str(e)[:100]}')
         return False
     if bytes(got) != expected:
-        fail(f'read_value/mismatch/{kind}', f'read of {what} 0x{handle:04X} on client {b["k"]} {kind} bearer, ATT_MTU {b["mtu"]}: '
+        fail(sig or f'read_value/mismatch/{kind}', f'read of {what} 0x{handle:04X} on client {b["k"]} {kind} bearer, ATT_MTU {b["mtu"]}: '
                                             f'server value has {len(expected)} bytes ({hx(expected)}), read_value returned {len(got)} bytes ({hx(got)})')
         return False
     return True
@@ -826,16 +1025,30 @@ async def _read_and_compare(S, fail, b, handle, expected, what) -> bool:
 
 async def _run_ops(loop, case, S, fail, sniffer, server, L, my_chars, sub_chars, bearers):
     labels = S['labels']
-    subs: dict = {}  # (bearer index, value handle) -> 'n' | 'i'
-    fired: dict = {}  # (bearer index, value handle) -> list of values
+    subs: dict = {}  # (bearer index, value handle) -> 'n' | 'i': what the bearer's CCCD at the server says (model)
+    regs: dict = {}  # (bearer index, value handle) -> {slot: kinds it subscribed with}: the client's subscribers (model)
+    shaky: set = set()  # keys whose callback-less subscription ('p') may have been dropped together with the last callback
+    fired: dict = {}  # (bearer index, value handle, slot) -> list of values; slot 'u' = the proxy's 'update' event
     callbacks: dict = {}
 
-    def cb_for(bi, vh):
-        key = (bi, vh)
+    def cb_for(bi, vh, slot=0):
+        key = (bi, vh, slot)
         if key not in callbacks:
             fired[key] = []
-            callbacks[key] = fired[key].append
+            callbacks[key] = (lambda value, sink=fired[key]: sink.append(value))
         return callbacks[key]
+
+    def listen(bi, vh, proxy):
+        key = (bi, vh, 'u')
+        if key not in fired:
+            fired[key] = []
+            proxy.on(proxy.EVENT_UPDATE, fired[key].append)
+
+    def forget(bi):
+        for key in [key for key in subs if key[0] == bi]:
+            del subs[key]
+        for key in [key for key in regs if key[0] == bi]:
+            del regs[key]
 
     expanded = []
     for op in case['ops']:
@@ -848,8 +1061,13 @@ async def _run_ops(loop, case, S, fail, sniffer, server, L, my_chars, sub_chars,
         live = [bi for bi, x in enumerate(bearers) if not x.get('dead')]
         return live[i % len(live)]
 
+    pending_read = None
     for op in expanded:
         name = op[0]
+        with_read, pending_read = pending_read, None
+        if name == 'with_read':
+            pending_read = op
+            continue
         if name == 'reconnect':
             # the client drops its connection and comes back: every bearer of the old connection is gone (with its
             # subscriptions); the new connection starts on the fixed bearer at the default ATT_MTU, subscribed to nothing
@@ -862,10 +1080,21 @@ async def _run_ops(loop, case, S, fail, sniffer, server, L, my_chars, sub_chars,
             await asyncio.sleep(QUIET)
             for bi in old:
                 bearers[bi]['dead'] = True
-                for key in [key for key in subs if key[0] == bi]:
-                    del subs[key]
+                forget(bi)
             conn_c, conn_p = await S['world'].connect_le(1 + k, 0)
-            nb = {'k': k, 'j': 0, 'client': conn_c.gatt_client, 'srv': conn_p, 'mtu': 23, 'enh': False, 'conn_p': conn_p, 'conn_c': conn_c,
+            new_mtu = 23
+            if len(op) > 2 and op[2] is not None:
+                # the new connection negotiates its own ATT_MTU (nothing of the closed connection's may be left)
+                S['phase'] = 'request_mtu'
+                got = await conn_c.gatt_client.request_mtu(int(op[2]))
+                new_mtu = min(int(op[2]), int(case['server_mtu']))
+                if got != new_mtu or conn_p.att_mtu != new_mtu or conn_c.att_mtu != new_mtu:
+                    fail('mtu/exchange', f'after a reconnection the client asked {op[2]}, server max {case["server_mtu"]}: request_mtu returned {got}, '
+                                         f'server side uses {conn_p.att_mtu}, client side {conn_c.att_mtu}')
+                    raise _Abort()
+                labels.add('reconnect_new_mtu')
+                S['phase'] = 'reconnect'
+            nb = {'k': k, 'j': 0, 'client': conn_c.gatt_client, 'srv': conn_p, 'mtu': new_mtu, 'enh': False, 'conn_p': conn_p, 'conn_c': conn_c,
                   'h2c': (conn_p.handle, att.ATT_CID), 'c2h': (conn_p.handle, att.ATT_CID)}
             bearers.append(nb)
             labels.add('reconnect')
@@ -877,7 +1106,84 @@ async def _run_ops(loop, case, S, fail, sniffer, server, L, my_chars, sub_chars,
                 raise _Abort()
             S['phase'] = 'ops'
             continue
-        if name in ('sub', 'unsub'):
+        if name == 'close_eatt':
+            # one enhanced bearer is closed (by the client or by the server); the connection and its other bearers stay
+            live = [bi for bi, x in enumerate(bearers) if x['enh'] and not x.get('dead')]
+            if not live:
+                continue
+            bi = live[op[1] % len(live)]
+            b = bearers[bi]
+            by_server = bool(op[2]) if len(op) > 2 else False
+            S['phase'] = 'close_eatt'
+            await (b['srv'] if by_server else b['client'].bearer).disconnect()
+            await asyncio.sleep(QUIET)
+            b['dead'] = True
+            forget(bi)
+            labels.add('eatt_closed')
+            labels.add('eatt_closed:by_server' if by_server else 'eatt_closed:by_client')
+            if any((key[0] != bi and bearers[key[0]]['k'] == b['k']) for key in subs):
+                labels.add('eatt_closed:sibling_subscribed')
+            S['phase'] = 'ops'
+            continue
+        if name == 'open_eatt':
+            if not S.get('eatt_registered'):
+                continue
+            k = op[1] % len(case['clients'])
+            fixed = [x for x in bearers if x['k'] == k and not x['enh'] and not x.get('dead')]
+            if not fixed or sum(1 for x in bearers if x['k'] == k and x['enh'] and not x.get('dead')) >= 3:
+                continue
+            S['phase'] = 'connect_eatt'
+            nb = await _open_eatt(S['srv_device'], case, fixed[-1]['conn_c'], fixed[-1]['conn_p'], k,
+                                  1 + sum(1 for x in bearers if x['k'] == k and x['enh']), op[2])
+            labels.add('eatt_opened_later')
+            if any(x.get('dead') and x['enh'] and x['h2c'] == nb['h2c'] and x['c2h'] == nb['c2h'] for x in bearers):
+                labels.add('eatt_cid_reused')
+            bearers.append(nb)
+            if not await _discover_and_compare(case, S, fail, sniffer, L, nb, full=False, classify=False):
+                raise _Abort()
+            S['phase'] = 'ops'
+            continue
+        if name == 'reads_together':
+            # several reads started at the same moment (same bearer: the client has to queue them; different bearers:
+            # the server sees the long reads interleaved)
+            if not my_chars:
+                continue
+            items = []
+            for entry in list(op[1])[:4]:
+                bi = alive(int(entry[0]))
+                pool_ = my_chars
+                if len(entry) > 2 and entry[2]:
+                    pool_ = [c for c in my_chars if len(bytes(c['value_obj'].value)) > bearers[bi]['mtu'] - 1] or my_chars
+                lc = pool_[int(entry[1]) % len(pool_)]
+                items.append((bi, lc, bytes(lc['value_obj'].value)))
+            if len(items) < 2:
+                continue
+            S['phase'] = 'read_value:concurrent'
+            results = await asyncio.gather(*[bearers[bi]['client'].read_value(lc['vh']) for bi, lc, _e in items], return_exceptions=True)
+            bad = False
+            for (bi, lc, expected), got in zip(items, results):
+                b = bearers[bi]
+                kind = 'eatt' if b['enh'] else 'att'
+                tag = f'0x{lc["vh"]:04X} ({len(expected)} bytes) on client {b["k"]} bearer {b["j"]} (ATT_MTU {b["mtu"]}), one of {len(items)} reads started together'
+                if isinstance(got, BaseException):
+                    if not isinstance(got, Exception) or isinstance(got, (_Abort, HarnessError)):
+                        raise got
+                    fail(f'read_value/raises/{type(got).__name__}/concurrent', f'read of {tag} raised {type(got).__name__}: {str(got)[:100]}')
+                    bad = True
+                elif bytes(got) != expected:
+                    fail(f'read_value/mismatch/{kind}/concurrent', f'read of {tag}: read_value returned {len(got)} bytes ({hx(got)}), the server value is {hx(expected)}')
+                    bad = True
+            if bad:
+                raise _Abort()
+            labels.add('concurrent_reads')
+            if len({bi for bi, _l, _e in items}) < len(items):
+                labels.add('concurrent_reads:same_bearer')
+            if len({bi for bi, _l, e in items if len(e) > bearers[bi]['mtu'] - 1}) >= 2:
+                labels.add('concurrent_reads:long_on_two_bearers')
+                S['nontrivial'] = True
+            S['phase'] = 'ops'
+            continue
+        if name in ('sub', 'unsub', 'subx', 'unsubx'):
             if not sub_chars:
                 continue
             bi = alive(op[1])
@@ -887,26 +1193,92 @@ async def _run_ops(loop, case, S, fail, sniffer, server, L, my_chars, sub_chars,
                 continue
             lc = reach[op[2] % len(reach)]
             proxy = b['chars'][lc['vh']]
-            if name == 'sub':
+            key = (bi, lc['vh'])
+            slot = op[3] if name in ('subx', 'unsubx') else 0
+            cccd_now = {'n': b'\x01\x00', 'i': b'\x02\x00', None: b'\x00\x00'}
+            csig = None
+            if name in ('sub', 'subx'):
+                prefer = bool(op[4] if name == 'subx' else op[3])
                 both = (lc['props'] & 0x30) == 0x30
-                kind = ('n' if op[3] else 'i') if both else ('n' if lc['props'] & 0x10 else 'i')
-                ok, _ = await _call(S, fail, 'subscribe', proxy.subscribe(cb_for(bi, lc['vh']), prefer_notify=bool(op[3])), f'0x{lc["vh"]:04X}')
+                kind = ('n' if prefer else 'i') if both else ('n' if lc['props'] & 0x10 else 'i')
+                listen(bi, lc['vh'], proxy)
+                subscriber = None if slot == 'p' else cb_for(bi, lc['vh'], slot)
+                ok, _ = await _call(S, fail, 'subscribe', proxy.subscribe(subscriber, prefer_notify=prefer), f'0x{lc["vh"]:04X}')
                 if not ok:
                     raise _Abort()
-                subs[(bi, lc['vh'])] = kind
+                r = regs.setdefault(key, {})
+                if slot == 'p' and key in shaky:
+                    r.pop('p', None)
+                    shaky.discard(key)
+                r.setdefault(slot, set()).add(kind)
+                subs[key] = kind
                 labels.add('subscribe:' + ('notify' if kind == 'n' else 'indicate'))
+                if slot == 'p':
+                    labels.add('subscribe:without_callback')
+                if sum(1 for s_ in r if s_ != 'p') >= 2:
+                    labels.add('several_subscribers')
+                wants = [cccd_now[kind]]
             else:
-                ok, _ = await _call(S, fail, 'unsubscribe', proxy.unsubscribe(cb_for(bi, lc['vh'])), f'0x{lc["vh"]:04X}')
-                if not ok:
-                    raise _Abort()
-                if subs.pop((bi, lc['vh']), None):
-                    labels.add('unsubscribe')
+                r = regs.get(key, {})
+                before_kind = subs.get(key)
+                if slot == 'p':
+                    # unsubscribe() without a callback: every subscriber of this client for this characteristic goes
+                    ok, _ = await _call(S, fail, 'unsubscribe', proxy.unsubscribe(), f'0x{lc["vh"]:04X} (all)')
+                    if not ok:
+                        raise _Abort()
+                    if r:
+                        labels.add('unsubscribe')
+                        labels.add('unsubscribe:all')
+                    regs.pop(key, None)
+                    shaky.discard(key)
+                    subs.pop(key, None)
+                    wants = [cccd_now[None]]
+                else:
+                    ok, _ = await _call(S, fail, 'unsubscribe', proxy.unsubscribe(cb_for(bi, lc['vh'], slot)), f'0x{lc["vh"]:04X}')
+                    if not ok:
+                        raise _Abort()
+                    if slot in r:
+                        del r[slot]
+                        labels.add('unsubscribe')
+                        if 'p' in r:
+                            shaky.add(key)
+                        if not r:
+                            # the last subscriber is gone: the bearer is not subscribed any more
+                            regs.pop(key, None)
+                            subs.pop(key, None)
+                            wants = [cccd_now[None]]
+                        elif before_kind is None:
+                            wants = [cccd_now[None]]
+                        elif any(before_kind in kinds for s_, kinds in r.items() if s_ != 'p'):
+                            # another callback of this client is still subscribed for what the CCCD enables: it stays
+                            wants = [cccd_now[before_kind]]
+                            csig = 'unsubscribe/cccd_changed_while_subscribers_left'
+                            labels.add('unsubscribe:one_of_several')
+                        else:
+                            # what is left is a callback-less subscription or subscribers of the other kind: either
+                            wants = [cccd_now[before_kind], cccd_now[None]]
+                            labels.add('unsubscribe:open_outcome')
+                    else:
+                        # this callback was not subscribed: nothing changes for the others
+                        wants = [cccd_now[before_kind]]
+                        if r:
+                            csig = 'unsubscribe/cccd_changed_by_stranger'
+                            labels.add('unsubscribe:not_subscribed')
             # the CCCD as seen by this bearer reflects the subscription
             cccd = [h for h, t, _a in lc['descs'] if t == T_CCCD]
             if cccd:
-                want = {'n': b'\x01\x00', 'i': b'\x02\x00', None: b'\x00\x00'}[subs.get((bi, lc['vh']))]
-                if not await _read_and_compare(S, fail, b, cccd[0], want, 'CCCD'):
-                    raise _Abort()
+                if len(wants) == 1:
+                    if not await _read_and_compare(S, fail, b, cccd[0], wants[0], 'CCCD', sig=csig):
+                        raise _Abort()
+                else:
+                    ok, got = await _call(S, fail, 'read_value', b['client'].read_value(cccd[0]), f'CCCD 0x{cccd[0]:04X}')
+                    if not ok:
+                        raise _Abort()
+                    if bytes(got) not in wants:
+                        fail('read_value/mismatch/' + ('eatt' if b['enh'] else 'att'), f'CCCD 0x{cccd[0]:04X} reads {hx(got)} after an unsubscribe, expected one of {[hx(x) for x in wants]}')
+                        raise _Abort()
+                    if bytes(got) == cccd_now[None]:
+                        subs.pop(key, None)
         elif name == 'write':
             if not my_chars:
                 continue
@@ -999,15 +1371,51 @@ async def _run_ops(loop, case, S, fail, sniffer, server, L, my_chars, sub_chars,
             sig = f'send/{api}/{mode}'
             mark = sniffer.pump()
             before = {key: len(v) for key, v in fired.items()}
+            read_task = None
+            if with_read and my_chars:
+                # a read (usually a long one) is in flight on some bearer while the server sends
+                rb = bearers[alive(int(with_read[1]))]
+                rpool = my_chars
+                if len(with_read) > 4 and with_read[4]:
+                    rpool = [c for c in my_chars if len(bytes(c['value_obj'].value)) > rb['mtu'] - 1] or my_chars
+                rlc = rpool[int(with_read[2]) % len(rpool)]
+                rexpected = bytes(rlc['value_obj'].value)
+                read_task = loop.create_task(rb['client'].read_value(rlc['vh']))
+                for _ in range(int(with_read[3]) if len(with_read) > 3 else 0):
+                    await asyncio.sleep(0)
             S['phase'] = f'{api}:0x{lc["vh"]:04X}'
             try:
                 await coro
             except asyncio.CancelledError:
                 raise
             except Exception as e:  # noqa: BLE001
+                if read_task is not None:
+                    read_task.cancel()
                 fail(f'{sig}/raises/{type(e).__name__}', f'{api}(0x{lc["vh"]:04X}, force={force}) raised {type(e).__name__}: {str(e)[:120]}')
                 raise _Abort()
             at_return = sniffer.pump()
+            if read_task is not None:
+                rkind = 'eatt' if rb['enh'] else 'att'
+                rtag = (f'0x{rlc["vh"]:04X} ({len(rexpected)} bytes) on client {rb["k"]} bearer {rb["j"]} (ATT_MTU {rb["mtu"]}) '
+                        f'while the server ran {api}(0x{lc["vh"]:04X})')
+                S['phase'] = f'read_value:0x{rlc["vh"]:04X} during {api}'
+                try:
+                    rgot = await read_task
+                except asyncio.CancelledError:
+                    raise
+                except Exception as e:  # noqa: BLE001
+                    fail(f'read_value/raises/{type(e).__name__}/during_send', f'read of {rtag} raised {type(e).__name__}: {str(e)[:100]}')
+                    raise _Abort()
+                if bytes(rgot) != rexpected:
+                    fail(f'read_value/mismatch/{rkind}/during_send', f'read of {rtag}: read_value returned {len(rgot)} bytes ({hx(rgot)}), '
+                                                                     f'the server value is {hx(rexpected)}')
+                    raise _Abort()
+                labels.add('read_during_send')
+                if len(rexpected) > rb['mtu'] - 1:
+                    labels.add('long_read_during_send')
+                    if any(bearers[bi] is rb for bi in expected):
+                        labels.add('long_read_during_send:on_a_target_bearer')
+                        S['nontrivial'] = True
             await asyncio.sleep(QUIET)
             sniffer.pump()
             labels.add(f'send:{api}' + (':forced' if force else ''))
@@ -1074,26 +1482,46 @@ async def _run_ops(loop, case, S, fail, sniffer, server, L, my_chars, sub_chars,
             if vproblem:
                 fail(f'{sig}/value', f'{who}: {vproblem}')
                 raise _Abort()
-            # ---- callbacks
+            # ---- callbacks: every subscriber the client still has for this characteristic, and nobody else
             for bi, x in enumerate(bearers):
-                key = (bi, lc['vh'])
-                new = fired.get(key, [])[before.get(key, 0):]
+                r = regs.get((bi, lc['vh']), {})
                 want_value = full_value[: x['mtu'] - 3]
-                if bi in expected and not force:
-                    if len(new) != 1:
-                        fail(f'callback/{api}/count', f'{who}: the subscriber of client {x["k"]} bearer {x["j"]} was called {len(new)} time(s), expected once')
+                delivered = bi in expected
+                whom = f'client {x["k"]} bearer {x["j"]}'
+                for key in [key for key in fired if key[0] == bi and key[1] == lc['vh']]:
+                    slot = key[2]
+                    new = fired[key][before.get(key, 0):]
+                    name_ = "the proxy's 'update' listener" if slot == 'u' else (f'subscriber #{slot}' if slot else 'the subscriber')
+                    if not delivered:
+                        if new:
+                            fail(f'callback/{api}/count', f'{who}: {name_} of {whom} was called although that bearer is not a target')
+                            raise _Abort()
+                        continue
+                    if force:
+                        must, may = False, True
+                    elif slot == 'u':
+                        must = any(want_kind in kinds for s_, kinds in r.items() if s_ != 'p') or (want_kind in r.get('p', ()) and (bi, lc['vh']) not in shaky)
+                        may = bool(r)
+                    else:
+                        must = want_kind in r.get(slot, ())
+                        may = slot in r
+                    if must and len(new) != 1:
+                        fail(f'callback/{api}/count', f'{who}: {name_} of {whom} was called {len(new)} time(s), expected once')
                         raise _Abort()
-                elif bi in expected and force:
-                    if len(new) > 1:
-                        fail(f'callback/{api}/count', f'{who}: the subscriber of client {x["k"]} bearer {x["j"]} was called {len(new)} times')
+                    if not must and may and len(new) > 1:
+                        fail(f'callback/{api}/count', f'{who}: {name_} of {whom} was called {len(new)} times')
                         raise _Abort()
-                elif new:
-                    fail(f'callback/{api}/count', f'{who}: the subscriber of client {x["k"]} bearer {x["j"]} was called although that bearer is not a target')
-                    raise _Abort()
-                if new and bytes(new[0]) != want_value:
-                    fail(f'callback/{api}/value', f'{who}: subscriber of client {x["k"]} bearer {x["j"]} (ATT_MTU {x["mtu"]}) got {len(new[0])} bytes, '
-                                                  f'expected the first {len(want_value)} of {len(full_value)}')
-                    raise _Abort()
+                    if not may and new:
+                        fail(f'callback/{api}/count', f'{who}: {name_} of {whom} was called although it is not subscribed (any more)')
+                        raise _Abort()
+                    if new and bytes(new[0]) != want_value:
+                        fail(f'callback/{api}/value', f'{who}: {name_} of {whom} (ATT_MTU {x["mtu"]}) got {len(new[0])} bytes, '
+                                                      f'expected the first {len(want_value)} of {len(full_value)}')
+                        raise _Abort()
+                if delivered and not force and sum(1 for s_, kinds in r.items() if s_ != 'p' and want_kind in kinds) >= 2:
+                    labels.add('send_to_several_subscribers')
+                if delivered and not force and r and any(k_[0] == bi and k_[1] == lc['vh'] and k_[2] not in r and k_[2] != 'u' for k_ in fired):
+                    labels.add('send_after_partial_unsubscribe')
             for key, v in fired.items():
                 if key[1] != lc['vh'] and len(v) != before.get(key, 0):
                     fail(f'callback/{api}/count', f'{who}: a subscriber of another characteristic (0x{key[1]:04X}) was called')
@@ -1377,6 +1805,8 @@ def run_script_case(ctx, case) -> None:
 def run(ctx) -> None:
     vloop.selftest()
     ctx.hyp('db', lambda c: run_db_case(ctx, c), db_case(), max_examples=ctx.n(220, 6400))
+    for focus in ('subscribers', 'overlap', 'churn'):
+        ctx.hyp(f'db_{focus}', lambda c: run_db_case(ctx, c), db_case(focus), max_examples=ctx.n(45, 1600))
     ctx.hyp('script', lambda c: run_script_case(ctx, c), script_case(), max_examples=ctx.n(1200, 32000))
     for label, n in (
         ('clients:2', 5), ('clients:3', 3), ('eatt_bearer', 5), ('included_service', 10), ('secondary_service', 10),
@@ -1388,6 +1818,13 @@ def run(ctx) -> None:
         ('multi_pdu:descriptors', 10), ('write:request', 3), ('write:command', 3), ('subscribe:notify', 10),
         ('subscribe:indicate', 10), ('send:indicate_subscriber:eatt_target', 3), ('send:notify_subscriber:eatt_target', 3),
         ('hci_delays', 10), ('read_on_eatt', 10), ('long_read_on_eatt', 3), ('reconnect', 10), ('reconnect_same_handle', 5),
+        # extension: filtered / ranged discovery, the client's subscriber sets, overlapping operations, bearer churn
+        ('filtered:services:some_excluded', 10), ('filtered:characteristics:followed_by_other', 10), ('characteristics_of_all_services', 10),
+        ('descriptors_by_range', 10), ('several_subscribers', 10), ('send_to_several_subscribers', 8), ('send_after_partial_unsubscribe', 5),
+        ('unsubscribe:one_of_several', 5), ('unsubscribe:all', 2), ('unsubscribe:not_subscribed', 3), ('subscribe:without_callback', 3),
+        ('concurrent_reads', 10), ('concurrent_reads:same_bearer', 5), ('concurrent_reads:long_on_two_bearers', 2), ('read_during_send', 10),
+        ('long_read_during_send:on_a_target_bearer', 4), ('eatt_closed:by_client', 5), ('eatt_closed:by_server', 5),
+        ('eatt_closed:sibling_subscribed', 5), ('eatt_opened_later', 5), ('eatt_cid_reused', 3), ('reconnect_new_mtu', 5),
     ):
         ctx.floor(label, n)
     for p in PROCS:
